@@ -19,6 +19,9 @@ CLAIMED['C12'] = dict(design='5 (C12), 2', note='trusted: MIRSE MIR semantics + 
 CLAIMED['C18'] = dict(design='5 (C18), 2', note='trusted: MIRSE MIR semantics + std models; the word-match relation is a symbolic Boolean '
     'matrix supplied through the real generic entry point match_words_with, plus the real closures of match_words on symbolic ASCII '
     'one-letter words; oracle = reference LCS DP; HashSet iteration order fixed (results compared as sets); bounds in evidence')
+CLAIMED['C16'] = dict(design='5 (C16), 2', note='trusted: MIRSE MIR semantics + std models, grapheme model over Sigma_g; (max, context) are '
+    'symbolic 64-bit values (below 16 for all bounded texts, unconstrained for texts of <= 1 character); oracle = tiling / containment / '
+    'size / slice / byte-offset equations stated independently; overflow defect repaired by a fix commit (known_findings.json)')
 NOT_YET = 'check not built yet in this session (work in progress, see DESIGN.md section 6 for the order)'
 NA = {}
 
